@@ -23,7 +23,8 @@ P = dict(
           "(function, types, argument tuple): enumerated blocks enumerate without repetition and exclude tuples owned by another block; a random tuple "
           "counts only if it is not in the enumerated sets and its hash is new. Non-trivial: every in-domain tuple (these are pure functions; there is no state)."),
     units=(
-        [Unit("C14_bit", "harness/C14_bit.cpp", flavours=_FL, shards={"quick": 3, "thorough": 6})]
+        [Unit(f"C14_bit_{r}", "harness/C14_bit.cpp", defs=[f"-DC14_ROWS={r}"], flavours=_FL,
+              shards={"quick": 2, "thorough": 4}) for r in (0, 1)]
         + [Unit(f"C14_arith_{r}", "harness/C14_arith.cpp", defs=["-DC14_PART=1", f"-DC14_ROWS={r}"], flavours=_FL,
                 shards={"quick": 3, "thorough": 6}) for r in (0, 1)]
         + [Unit(f"C14_gcdmix_{r}", "harness/C14_arith.cpp", defs=["-DC14_PART=2", f"-DC14_ROWS={r}"], flavours=_FL,
